@@ -50,6 +50,25 @@ CLAIMED.update({
         design_ref="DESIGN.md section 3 (C12, C13)", note=GEN, technique=TECH),
 })
 
+SC = ("TLC exhaustively checks the implementation-shaped model of CancelScope on the asyncio kernel (most "
+      "general clients: nested scopes with shields, deadlines, pre-cancelled scopes, shielded or re-waiting "
+      "clean-up, cancel() by the task itself / a sibling / an outside callback, native Task.cancel()) against the "
+      "independent reference semantics P_Scope; choice edges and sampled behaviours are replayed on the real "
+      "scopes on a virtual-time loop and the recorded traces are validated by TLC against P_Scope. ")
+TGX = ("TLC exhaustively checks the implementation-shaped model of TaskGroup / TaskHandle / start() on the asyncio "
+       "kernel (children spawning children, nested groups, errors from body and children, cancellation from inside, "
+       "outside and natively) against the observer P_TG (which contains P_Scope); behaviours replayed on real task "
+       "groups, traces validated by TLC. ")
+CLAIMED.update({
+    "C01": dict(text=TGX + "Clauses: JoinAll, NoStepAfterGroupExit, HandleFinal.", design_ref="DESIGN.md section 3 (C01)", note=GEN, technique=TECH),
+    "C02": dict(text=TGX + "Clauses: NoneDropped, NoneInvented, NoDuplicates, NoCancelLeaves, NoErrorNoRaise, ErrorsRaiseGroup, CancelOnlyPassesThrough.", design_ref="DESIGN.md section 3 (C02)", note=GEN, technique=TECH),
+    "C03": dict(text=SC + "Clauses: InterruptedWithinBoundedCycles, EveryCheckpointRaises, NothingBlockedInCancelledScope.", design_ref="DESIGN.md section 3 (C03)", note=GEN, technique=TECH),
+    "C04": dict(text=SC + "Clauses: CancelOnlyIfEffective, AbsorbIff, CaughtIff, ErrorsPass, NativeCancelPasses.", design_ref="DESIGN.md section 3 (C04)", note=GEN, technique=TECH),
+    "C05": dict(text=SC + "Clauses: NoResidue (Task.cancelling() back at its entry value), NoLiveTimerAfterEnd, LoopIdleAfterEnd.", design_ref="DESIGN.md section 3 (C05)", note=GEN, technique=TECH),
+    "C06": dict(text=SC + "Clauses: NotEarly, NotMissed, NotAfterExit, TimeoutErrorIff, EffectiveDeadline (virtual integer clock).", design_ref="DESIGN.md section 3 (C06)", note=GEN, technique=TECH),
+    "C07": dict(text=TGX + "Clauses: ReturnsStartedValue, ChildErrorToCaller, ChildDoneBeforeCancelledStartReturns, GroupNotCancelledByStartFailure, SecondStartedIsError.", design_ref="DESIGN.md section 3 (C07)", note=GEN, technique=TECH),
+})
+
 NOT_YET = "check not built yet in this round (planned, see DESIGN.md section 3)"
 
 def main():
